@@ -68,6 +68,8 @@ impl<'a> TypeGenerator<'a> {
 
     /// Generate a module containing all types defined in the supplied type registry.
     pub fn generate_types_mod(&self) -> Result<ModuleIR, TypegenError> {
+        #[cfg(scale_typegen_verif)]
+        crate::verif_hooks::emit(r#"{"ev":"gen_begin"}"#.to_string());
         sanity_pass(self.type_registry)?;
 
         let flat_derives_registry = self
@@ -86,12 +88,22 @@ impl<'a> TypeGenerator<'a> {
             // Don't generate a type if it was substituted - the target type might
             // not be in the type registry + our resolution already performs the substitution.
             if self.settings.substitutes.contains(&path.segments) {
+                #[cfg(scale_typegen_verif)]
+                crate::verif_hooks::emit(format!(
+                    r#"{{"ev":"visit","id":{},"out":"substituted","other":-1}}"#,
+                    ty.id
+                ));
                 continue;
             }
 
             let namespace = path.namespace();
             // prelude types e.g. Option/Result have no namespace, so we don't generate them
             if namespace.is_empty() {
+                #[cfg(scale_typegen_verif)]
+                crate::verif_hooks::emit(format!(
+                    r#"{{"ev":"visit","id":{},"out":"prelude","other":-1}}"#,
+                    ty.id
+                ));
                 continue;
             }
 
@@ -103,17 +115,37 @@ impl<'a> TypeGenerator<'a> {
                 match innermost_module.types.entry(path.clone()) {
                     Entry::Vacant(e) => {
                         e.insert((ty_id, type_ir));
+                        #[cfg(scale_typegen_verif)]
+                        crate::verif_hooks::emit(format!(
+                            r#"{{"ev":"visit","id":{ty_id},"out":"insert","other":-1}}"#
+                        ));
                     }
                     Entry::Occupied(e) => {
                         // There is already a type with the same type path present.
                         // We do not just want to override it, so we check if the two types are semantically similar (structure + generics).
                         // If not, return an error, if yes, just keep the first one.
                         let other_ty_id = e.get().0;
+                        #[cfg(scale_typegen_verif)]
+                        crate::verif_hooks::emit(format!(
+                            r#"{{"ev":"visit","id":{ty_id},"out":"{}","other":{other_ty_id}}}"#,
+                            if types_equal(ty_id, other_ty_id, self.type_registry) {
+                                "keep"
+                            } else {
+                                "duplicate"
+                            }
+                        ));
                         if !types_equal(ty_id, other_ty_id, self.type_registry) {
                             return Err(TypegenError::DuplicateTypePath(ty.ty.path.to_string()));
                         }
                     }
                 };
+            }
+            #[cfg(scale_typegen_verif)]
+            if !matches!(ty.ty.type_def, TypeDef::Composite(_) | TypeDef::Variant(_)) {
+                crate::verif_hooks::emit(format!(
+                    r#"{{"ev":"visit","id":{},"out":"builtin","other":-1}}"#,
+                    ty.id
+                ));
             }
         }
 
